@@ -27,14 +27,14 @@ ASSUMPTIONS = [
 FACETS = ('compile-failed', 'nodetype', 'indices', 'augmention', 'objects', 'modulecompliance')
 
 
-def _profile():
-    return setcheck.profile_for(None, backends=('json', 'pysnmp'), dialects=('v2', 'v2', 'v2', 'v1'),
+def _profile(backends=('json', 'pysnmp')):
+    return setcheck.profile_for(None, backends=backends, dialects=('v2', 'v2', 'v2', 'v1'),
                                 modules=(1, 3), decls=(4, 18), texts='short', skipblocks=False, defval=False,
                                 kinds=('table', 'table', 'scalar', 'nt', 'og', 'ng', 'mc', 'mc', 'value'))
 
 
-def _profile_v1():
-    return setcheck.profile_for(None, backends=('json', 'pysnmp'), dialects=('v1',), modules=(1, 2),
+def _profile_v1(backends=('json', 'pysnmp')):
+    return setcheck.profile_for(None, backends=backends, dialects=('v1',), modules=(1, 2),
                                 decls=(4, 14), texts='short', skipblocks=False, defval=False,
                                 kinds=('table', 'scalar', 'tt', 'tt', 'value'))
 
@@ -42,6 +42,13 @@ def _profile_v1():
 @st.composite
 def cases(draw):
     prof = _profile_v1() if draw(st.integers(0, 4)) == 0 else _profile()
+    return {'mset': draw(mibgen.module_sets(prof))}
+
+
+@st.composite
+def json_cases(draw):
+    # JSON only: classes excluded for open findings of the pysnmp backend (hyphenated imports ...) are generated here
+    prof = _profile_v1(('json',)) if draw(st.integers(0, 4)) == 0 else _profile(('json',))
     return {'mset': draw(mibgen.module_sets(prof))}
 
 
@@ -115,8 +122,8 @@ def compile_prop(case, rec):
 
 def run(ctx):
     ctx.search('both', cases, prop, ctx.pick(2400, 50000))
-    ctx.search('json', cases, json_prop, ctx.pick(1600, 50000))
-    ctx.search('compile', cases, compile_prop, ctx.pick(1200, 30000))
+    ctx.search('json', json_cases, json_prop, ctx.pick(1600, 50000))
+    ctx.search('compile', json_cases, compile_prop, ctx.pick(1200, 30000))
 
 
 def replay(ctx, data):
